@@ -40,8 +40,16 @@ fn check_rect(x: f32, y: f32, w: f32, h: f32) -> Option<String> {
 
 /// what was built before the arc (the arc must not depend on it, apart from starting with a line
 /// from wherever the current point is to the arc's starting point)
-fn build_prefix(pb: &mut PathBuilder, prefix: u64, arc_start: (f32, f32)) {
+/// `circle` is the checked arc's (cx, cy, r, start): prefixes 10 and 11 draw an earlier arc on the same circle
+/// that ends (by its raw start + sweep, more than a full turn) exactly at the angle where the checked arc starts
+fn build_prefix(pb: &mut PathBuilder, prefix: u64, arc_start: (f32, f32), circle: (f32, f32, f32, f32)) {
     match prefix {
+        10 | 11 => {
+            let s1 = if prefix == 10 { 7.0f32 } else { -9.5 };
+            pb.move_to(0., 0.);
+            // (start - s1) + s1 may differ from start by an ulp: the caller chose start so that it does not
+            pb.arc(circle.0, circle.1, circle.2, circle.3 - s1, s1);
+        }
         0 => {}
         1 => pb.move_to(3., -2.),
         2 => {
@@ -94,9 +102,9 @@ fn check_arc(cx: f32, cy: f32, r: f32, start: f32, sweep: f32, prefix: u64, st: 
         o => return Some(format!("arc on an empty builder starts with {:?}, not with a LineTo", o)),
     };
     let mut pb = PathBuilder::new();
-    build_prefix(&mut pb, prefix, arc_start);
+    build_prefix(&mut pb, prefix, arc_start, (cx, cy, r, start));
     let mut tmp = PathBuilder::new();
-    build_prefix(&mut tmp, prefix, arc_start);
+    build_prefix(&mut tmp, prefix, arc_start, (cx, cy, r, start));
     let n0 = tmp.finish().ops.len();
     pb.arc(cx, cy, r, start, sweep);
     let full = pb.finish();
@@ -263,9 +271,11 @@ pub fn run(ctx: &Ctx) -> Outcome {
         if let Some(v) = check_rect(x, y, w, h) {
             co.viol("C20", v);
         }
-        let r = match rng.below(8) {
+        let r = match rng.below(9) {
             0 => 0.,
             1 => 1e-3,
+            // radii below every absolute epsilon an implementation might use (only meaningful near the origin)
+            8 => *rng.pick(&[1e-5f32, 7.6e-6, 1.5e-5, 1e-4, 3e-5]),
             2 => rng.range(100., 2000.) as f32,
             _ => rng.range(0.1, 100.) as f32,
         };
@@ -282,9 +292,17 @@ pub fn run(ctx: &Ctx) -> Outcome {
             3 => 0.,
             _ => rng.range(-6.5, 6.5) as f32,
         };
-        let (cx, cy) = (f(&mut rng), f(&mut rng));
+        let (cx, cy) = if r > 0. && r < 5e-4 { (if rng.chance(0.5) { 0. } else { r * 3. }, 0.) } else { (f(&mut rng), f(&mut rng)) };
         st.add("arcs_checked", 1);
-        let prefix = rng.below(10);
+        let prefix = rng.below(12);
+        // for the chained prefixes the start angle is one that the earlier arc's raw end reproduces exactly
+        let start = if prefix >= 10 {
+            let s1 = if prefix == 10 { 7.0f32 } else { -9.5 };
+            (start - s1) + s1
+        } else {
+            start
+        };
+        let start = if prefix >= 10 && (start - (if prefix == 10 { 7.0f32 } else { -9.5 })) + (if prefix == 10 { 7.0f32 } else { -9.5 }) != start { 0.5 } else { start };
         if let Some(v) = check_arc(cx, cy, r, start, sweep, prefix, st) {
             co.viol("C20", v);
         }
